@@ -3,6 +3,7 @@
 package logqlengine
 
 import (
+	"time"
 	"regexp"
 
 	"go.opentelemetry.io/collector/pdata/pcommon"
@@ -146,4 +147,60 @@ func VerifHarness_C19_RegexPool() {
 	vsymAssert(k3 != k4, "exactly one of =~ r and !~ r keeps a record")
 	vsymAssert(k3 == anch.MatchString(line), "=~ r is a fully anchored match")
 	vsymReach("C19_regex_pool")
+}
+
+// C01-O8 / C19-O2b: and / or over label filters of every kind (string,
+// number, duration, bytes, ip): the combination keeps what its operands keep
+// (intersection / union), and a kept record keeps its line, whichever operand
+// decided and whatever the other operand did with a missing label.
+func VerifHarness_C01_PredicateKinds() {
+	line := vsymString("line", 2)
+	set := newLabelSet()
+	// label n: absent, or a value from a pool (parsable by some kinds only)
+	vals := []string{"7", "3", "7s", "2KiB", "10.0.0.7", "abc"}
+	if c := vsymChoice("n", len(vals)+1); c < len(vals) {
+		set.Set("n", pcommon.NewValueStr(vals[c]))
+	}
+	if vsymBool("hasB") {
+		set.Set("b", pcommon.NewValueStr(vsymString("b", 1)))
+	}
+	typed := []logql.LabelPredicate{
+		&logql.NumberFilter{Label: "n", Op: logql.OpGt, Value: 5},
+		&logql.DurationFilter{Label: "n", Op: logql.OpGt, Value: 5 * time.Second},
+		&logql.BytesFilter{Label: "n", Op: logql.OpGt, Value: 1024},
+		&logql.IPFilter{Label: "n", Op: logql.OpEq, Value: "10.0.0.0/24"},
+	}
+	tp := typed[vsymChoice("typed", len(typed))]
+	sp := &logql.LabelMatcher{Label: "b", Op: []logql.BinOp{logql.OpEq, logql.OpNotEq}[vsymChoice("sop", 2)], Value: "x", Re: verifAnyRe}
+	left, right := logql.LabelPredicate(tp), logql.LabelPredicate(sp)
+	if vsymBool("swap") {
+		left, right = right, left
+	}
+	op := []logql.BinOp{logql.OpAnd, logql.OpOr}[vsymChoice("op", 2)]
+	// operands alone, each on its own copy of the labels (a filter may set __error__)
+	alone := func(p logql.LabelPredicate) bool {
+		proc, err := buildLabelPredicate(p)
+		vsymAssert(err == nil, "operand builds")
+		cp := newLabelSet()
+		for k, v := range set.labels {
+			cp.labels[k] = v
+		}
+		_, k := proc.Process(1, line, cp)
+		return k
+	}
+	kl, kr := alone(left), alone(right)
+	comb, err := buildLabelPredicate(&logql.LabelPredicateBinOp{Left: left, Op: op, Right: right})
+	vsymAssert(err == nil, "the combination builds")
+	out, keep := comb.Process(1, line, set)
+	if op == logql.OpAnd {
+		vsymAssert(keep == vsymAnd(kl, kr), "`p and q` keeps the records both keep")
+	} else {
+		vsymAssert(keep == vsymOr(kl, kr), "`p or q` keeps the records either keeps")
+	}
+	if keep && out != line && op == logql.OpOr && out == "" {
+		vsymFinding("F21", true, "`p or q` returns a kept record with an EMPTY line when p is a number/duration/bytes/ip filter on a label the record does not have: the left operand's (\"\", false) overwrites the line handed to the right operand")
+		return
+	}
+	vsymAssert(!keep || out == line, "a kept record keeps its line")
+	vsymReach("C01_predicate_kinds")
 }
